@@ -449,7 +449,12 @@ func (s *storage) createTable(archetype *archetype, relations []relationID) *tab
 	if uint8(len(relations)) < archetype.numRelations {
 		panic("relation targets must be fully specified")
 	}
+	var seen bitMask
 	for _, rel := range relations {
+		if seen.Get(rel.component.id) {
+			panic(fmt.Sprintf("relation component %d specified more than once", rel.component.id))
+		}
+		seen.Set(rel.component.id)
 		idx := archetype.componentsMap[rel.component.id]
 		targets[idx] = rel.target
 	}
